@@ -63,7 +63,7 @@ private:
   void* key;
 
   // The incarnation of the sandbox object this callback was registered with
-  uint32_t sandbox_incarnation = 0;
+  uint64_t sandbox_incarnation = 0;
 
   inline void move_obj(sandbox_callback&& other)
   {
@@ -112,7 +112,7 @@ private:
                    T_Interceptor p_callback_interceptor,
                    T_Trampoline p_callback_trampoline,
                    void* p_key,
-                   uint32_t p_sandbox_incarnation)
+                   uint64_t p_sandbox_incarnation)
     : sandbox(p_sandbox)
     , callback(p_callback)
     , callback_interceptor(p_callback_interceptor)
